@@ -35,7 +35,7 @@ func inMapping(c *syzgydb.Collection, b []byte) bool {
 func snapshotC11(o *Opts) {
 	res := NewResult("C11", "snapshot", o.Seed, o.Tier)
 	res.Rule = "values returned by GetDocument and by Search in every mode (exact, default, radius, listing; on the creating handle, on a read-only reopen and on a read-write reopen) are tested at return time for pointing into the file mapping (verif accessor), held across later overwrites, removals, space reuse, file growth and Close, and compared with a copy taken at return time; " +
-		"caller slices passed to AddDocument/UpdateDocument are mutated after the call; distinct = distinct held value"
+		"caller slices passed to AddDocument/UpdateDocument are compared with a copy at return and mutated after the call; the query vector of every Search (all modes, both metrics, far-from-unit lengths, with and without a filter) is compared with a copy at return; distinct = distinct held value"
 	nscen := 40
 	if o.Tier == "thorough" {
 		nscen = 600
@@ -73,6 +73,31 @@ func snapshotC11(o *Opts) {
 			}
 			return v
 		}
+		// every Search goes through here: the caller's query vector must come back bit for bit (in every mode, both
+		// metrics, with and without a filter), also when the query is far from unit length
+		searchQ := func(cc *syzgydb.Collection, mode string, args syzgydb.SearchArgs) []syzgydb.SearchResult {
+			if args.Vector != nil && rng.Intn(3) == 0 {
+				s := []float64{1e-3, 7, 250}[rng.Intn(3)]
+				for j := range args.Vector {
+					args.Vector[j] *= s
+				}
+			}
+			before := append([]float64{}, args.Vector...)
+			if rng.Intn(3) == 0 {
+				args.Filter = func(id uint64, metadata []byte) bool { return id%2 == 0 }
+			}
+			out := cc.Search(args).Results
+			res.Evaluations++
+			res.Hit("query-vector:" + mode)
+			for j := range before {
+				if math.Float64bits(before[j]) != math.Float64bits(args.Vector[j]) {
+					res.Violate("impl-failure", "C11/input-modified/"+mode, fmt.Sprintf("Search (%s, distance method %d) modified the caller's query vector: %v before the call, %v after", mode, si%2, before, args.Vector),
+						map[string]any{"scenario": si, "mode": mode, "metric": si % 2, "query": before})
+					break
+				}
+			}
+			return out
+		}
 		live := map[uint64]bool{}
 		nops := 30 + rng.Intn(40)
 		for i := 0; i < nops; i++ {
@@ -93,6 +118,9 @@ func snapshotC11(o *Opts) {
 					if math.Float64bits(vec[j]) != math.Float64bits(vecBefore[j]) {
 						res.Violate("impl-failure", "C11/input-modified", "AddDocument modified the caller's vector", map[string]any{"scenario": si})
 					}
+				}
+				if !bytes.Equal(md, mdBefore) {
+					res.Violate("impl-failure", "C11/input-modified", "AddDocument modified the caller's metadata", map[string]any{"scenario": si})
 				}
 				// the caller reuses its buffers
 				for j := range md {
@@ -120,6 +148,9 @@ func snapshotC11(o *Opts) {
 					md := genMeta(rng.Int63(), 1+rng.Intn(200))
 					mdBefore := bytes.Clone(md)
 					c.UpdateDocument(id, md)
+					if !bytes.Equal(md, mdBefore) {
+						res.Violate("impl-failure", "C11/input-modified", "UpdateDocument modified the caller's metadata", map[string]any{"scenario": si})
+					}
 					for j := range md {
 						md[j] = 0
 					}
@@ -137,12 +168,16 @@ func snapshotC11(o *Opts) {
 					hold("GetDocument", d.Metadata, d.Vector)
 				}
 			case k < 80:
-				for _, r := range c.Search(syzgydb.SearchArgs{Vector: vecOf(), K: 3, Precision: "exact"}).Results {
+				for _, r := range searchQ(c, "exact", syzgydb.SearchArgs{Vector: vecOf(), K: 3, Precision: "exact"}) {
 					hold("Search(exact)", r.Metadata, nil)
 				}
 			case k < 90:
-				for _, r := range c.Search(syzgydb.SearchArgs{Vector: vecOf(), K: 3}).Results {
-					hold("Search(default)", r.Metadata, nil)
+				args, mode := syzgydb.SearchArgs{Vector: vecOf(), K: 3}, "default"
+				if rng.Intn(2) == 0 {
+					args, mode = syzgydb.SearchArgs{Vector: vecOf(), Radius: 0.8}, "radius"
+				}
+				for _, r := range searchQ(c, mode, args) {
+					hold("Search("+mode+")", r.Metadata, nil)
 				}
 			default:
 				for _, r := range c.Search(syzgydb.SearchArgs{Limit: 3}).Results {
@@ -202,13 +237,13 @@ func snapshotC11(o *Opts) {
 					check("GetDocument("+mode.name+")", d.Metadata)
 				}
 			}
-			for _, r := range c2.Search(syzgydb.SearchArgs{Vector: vecOf(), K: 3, Precision: "exact"}).Results {
+			for _, r := range searchQ(c2, "exact,"+mode.name, syzgydb.SearchArgs{Vector: vecOf(), K: 3, Precision: "exact"}) {
 				check("Search(exact,"+mode.name+")", r.Metadata)
 			}
-			for _, r := range c2.Search(syzgydb.SearchArgs{Vector: vecOf(), K: 3}).Results {
+			for _, r := range searchQ(c2, "default,"+mode.name, syzgydb.SearchArgs{Vector: vecOf(), K: 3}) {
 				check("Search(default,"+mode.name+")", r.Metadata)
 			}
-			for _, r := range c2.Search(syzgydb.SearchArgs{Vector: vecOf(), Radius: 10}).Results {
+			for _, r := range searchQ(c2, "radius,"+mode.name, syzgydb.SearchArgs{Vector: vecOf(), Radius: 10}) {
 				check("Search(radius,"+mode.name+")", r.Metadata)
 			}
 			for _, r := range c2.Search(syzgydb.SearchArgs{Limit: 3}).Results {
